@@ -497,9 +497,10 @@ pub fn writer_scripts(
                     }
                 };
                 for (i, s) in script.iter().enumerate() {
-                    if matches!(s, WStep::Write(b) if b.is_empty()) && model.position() > model.get_ref().len() as u64 {
+                    if b.is_phys() && matches!(s, WStep::Write(b) if b.is_empty()) && model.position() > model.get_ref().len() as u64 {
                         // a zero-length write past the end: Cursor<Vec<u8>> zero-fills up to the
-                        // position, a POSIX file does not; the contract does not say -> not compared
+                        // position, a POSIX file does not; the contract does not say -> not compared on
+                        // handles that end in a file of the host (memory based handles are cursors)
                         *classes.entry("unspecified:empty-write-past-end (script skipped)".into()).or_insert(0) += 1;
                         continue 'scripts;
                     }
@@ -544,6 +545,9 @@ pub fn writer_scripts(
 
 // ------------------------------------------------------------------------------------
 // lengths x buffer sizes
+
+/// flag bit in a length given to `lengths_and_buffers`: content ends in zero bytes
+pub const ZEROS: usize = 1 << 40;
 
 pub fn pattern(n: usize) -> Vec<u8> {
     (0..n)
@@ -590,7 +594,17 @@ pub fn lengths_and_buffers(
         .map(|(b, len)| {
             let mut vio = vec![];
             let mut evals = 0u64;
-            let content = pattern(*len);
+            // lengths are given twice: with the non-UTF-8 pattern, and (len | ZEROS) with a tail of
+            // zero bytes: the last 8 KiB (or everything, for shorter contents) is 0x00
+            let zeros = *len & ZEROS != 0;
+            let len = &(*len & !ZEROS);
+            let mut content = pattern(*len);
+            if zeros {
+                let from = len.saturating_sub(8192);
+                for x in &mut content[from..] {
+                    *x = 0;
+                }
+            }
             // file created by a write session through the stack (or pre-existing in the lower layer)
             let via_lower = matches!(b, HB::OvLower | HB::OvPhysLower);
             let live = setup(*b, if via_lower { Some(&content) } else { None });
